@@ -25,5 +25,6 @@ run dstutil_test.go.part dstutil cursor apply
 run decorator_test.go.part decorator graph objects
 run decorator_test.go.part decorator errors resolvers
 run decorator_test.go.part decorator save save
+run decorator_test.go.part decorator imports imports
 for op in Append Prepend Replace Clear All; do run dst_test.go.part . declist $op; done
 exit $rc
